@@ -316,3 +316,66 @@ contract("src/intron_graph.py:IntronGraph.is_end_internal", {"self": "rec:Intron
          ensures=["result == any(out[0] + self.params.delta >= read_end for out in self.outgoing_edges[intron])"],
          loops={0: {"inv": ["is_internal == False", "not any(_seq0[j][0] + self.params.delta >= read_end for j in range(_k0))"]}},
          gen=lambda rng, n: ({k: v for k, v in c.items() if k != "read_start"} for c in _gen_internal(rng, n)))
+
+
+# ---- split-exon profile of a read with a polyA tail vs the mirrored read with a polyT head ----------------------------------------------------
+def _split_profile_case(seed):
+    """NonOverlappingFeaturesProfileConstructor.construct_profile (production comparator) on non-overlapping annotated blocks, a read made of
+    some of them (ends jittered) and a polyA position at / near the read end; against the mirror image with the polyT position"""
+    import random
+    from functools import partial
+    rng = random.Random(seed)
+    lrp = native.repo_import("src/long_read_profiles.py")
+    com = native.repo_import("src/common.py")
+    C = 10000
+    delta = rng.choice([0, 4, 6])
+    known, p = [], 1000
+    for _ in range(rng.randint(2, 7)):
+        a = p + rng.choice([1, 1, 1, 200, 600])          # split exons touch each other or are separated by introns
+        b = a + rng.choice([3, 4, 8, 30, 120])
+        known.append((a, b))
+        p = b
+    lo = rng.randrange(len(known))
+    hi = rng.randrange(lo, len(known))
+    blocks = [known[i] for i in range(lo, hi + 1) if i in (lo, hi) or rng.random() < .8]
+    blocks[-1] = (blocks[-1][0], max(blocks[-1][0], blocks[-1][1] + rng.choice([0, 0, -2, 3, 9])))
+    # glue touching blocks as an aligner would report them
+    glued = [blocks[0]]
+    for b in blocks[1:]:
+        if b[0] <= glued[-1][1] + 1:
+            glued[-1] = (glued[-1][0], max(glued[-1][1], b[1]))
+        else:
+            glued.append(b)
+    polya = glued[-1][1] + rng.choice([0, 0, -3, 2, -7, 5, -12])
+    mir = lambda r: (C - r[1], C - r[0])
+    mk = lambda feats: lrp.NonOverlappingFeaturesProfileConstructor(feats, comparator=partial(com.overlaps_at_least_when_overlap, delta=5), delta=delta)
+    a = mk(known).construct_profile(glued, polya_position=polya)
+    b = mk([mir(k) for k in reversed(known)]).construct_profile([mir(x) for x in reversed(glued)], polyt_position=C - polya)
+    problems = []
+    if list(a.gene_profile) != list(reversed(b.gene_profile)) or list(a.read_profile) != list(reversed(b.read_profile)):
+        problems.append("known %s, read %s, polyA %d (delta %d): profile %s / %s; mirror image with polyT %d: %s / %s" % (
+            known, glued, polya, delta, a.gene_profile, a.read_profile, C - polya, list(reversed(b.gene_profile)), list(reversed(b.read_profile))))
+    return problems
+
+
+def replay_split_profile(d):
+    p = _split_profile_case(d["inputs"]["seed"])
+    return (not p), "seed %s: %s" % (d["inputs"]["seed"], p or "mirror twins agree")
+
+
+@bounded("C11.split_profile_twins", ["C11"], shards=4, note="NonOverlappingFeaturesProfileConstructor.construct_profile (split-exon profile, production "
+         "comparator) for a read with a polyA position against the mirrored read with the mirrored polyT position: the two profiles are mirror "
+         "images (the -2 cut-off beyond the tail is applied on the same side of the tail)")
+def c11_split_profile(tier, rng):
+    n = 3000 if tier == "quick" else 80000
+    base = rng.randrange(10 ** 9)
+    for k in range(n):
+        try:
+            p = _split_profile_case(base + k)
+        except Exception as e:
+            p = ["exception %s: %s" % (type(e).__name__, e)]
+        if p:
+            return {"cases": k + 1, "bound": "%d configurations" % n, "violations": [{
+                "obligation": "C11.split_profile_twins", "inputs": {"seed": base + k}, "observed": p[:2], "required": "mirrored profiles",
+                "replay_call": "contracts.c_equivariance:replay_split_profile"}]}
+    return {"cases": n, "bound": "%d random configurations" % n, "violations": [], "samples": [{"seed": base}]}
